@@ -29,20 +29,20 @@ CLAIMS = {
              "abstract interpretation (monomial-shape domain) over ast"),
     "C03": C("In every branch result writer pl/ql is the positive sum of exactly the terminal power columns (AC) "
              "and zero-like (DC); slack power depends on demand and losses; slack power split over several slack "
-             "elements at one bus divides by the element count of that bus. Also: total shared among reference machines (bus power minus other set-points), agreement of the numba and pypower pfsoln twins.",
+             "elements at one bus divides by the element count of that bus. Also: total shared among reference machines (bus power minus other set-points), agreement of the numba and pypower pfsoln twins. Round 4: slack generators always reference machines, addressed by label; xward share over sgen/load/ward/xward/storage.",
              "ast def-use / dependence analysis of result writers"),
     "C04": C("Setpoint columns flow into the ppc columns that fix them and results read back the element's own "
              "row; ZIP and shunt laws have the documented voltage degree; the Q-limit loop pins a violating "
-             "generator at the limit it violated; stepped shunts multiply power and step together. Also: Q-limit demand adjustment from the generator row, ordinary generators at a reference bus keep their set-point. Round 3: the all-reference bypass hands the complex set-point vector to pfsoln.",
+             "generator at the limit it violated; stepped shunts multiply power and step together. Also: Q-limit demand adjustment from the generator row, ordinary generators at a reference bus keep their set-point. Round 3: the all-reference bypass hands the complex set-point vector to pfsoln. Round 4: per-load ZIP results with scaling (shared ZIP-LAW); set-point conflicts checked over all generator rows.",
              "dependence + monomial-shape analysis"),
     "C05": C("Base-power homogeneity and parallel-count homogeneity of every ppc writer and result reader; every "
              "ppc column that holds a bus number is re-mapped in _ppc2ppci; result writers index through lookups; "
-             "bus fusing tests both ends of a switch. Also: in-service factor on every shunt term; dc line resistance divided by parallel.",
+             "bus fusing tests both ends of a switch. Also: in-service factor on every shunt term; dc line resistance divided by parallel. Round 4: slack generators addressed by label; result tables kept only under Index.equals.",
              "monomial-shape abstract interpretation + table agreement"),
     "C07": C("Element types giving connectivity in the power flow agree with those giving edges in the topology "
              "graph used by unsupplied_buses; slack definitions agree; NaN is written exactly for isolated buses "
              "before results are read; every element type's in-service mask combines its own flag with its bus's; "
-             "isolated-node detection covers both numba and numpy siblings. Also: loops over literal element-type lists in the builders never exit early.",
+             "isolated-node detection covers both numba and numpy siblings. Also: loops over literal element-type lists in the builders never exit early. Round 4: the line at an out-of-service bus is addressed by its position in the whole line table.",
              "table agreement + ordering (dominators) on ast"),
     "C08": C("Pairing of auxiliary-element acquire/release on every normal and exceptional path of every calculation "
              "entry point; no reachable function stores into a schema column of a user table or drops/adds rows "
@@ -71,13 +71,13 @@ CLAIMS = {
     "C12": C("Writer/reader table agreement: every (element, variable) ConstControl marks recyclable is read by a "
              "builder that the raised flag re-runs; every variable accepted for batch reading is provided by "
              "get_batch_outputs; stored Ybus/Sbus reused only when the corresponding flags are clear; a recycled run "
-             "re-runs the builders of every flagged table; a diverged run does not leave a ppc marked successful. Also: batch readers use the regular rating expressions; OutputWriter's positional fast path only under index equality.",
+             "re-runs the builders of every flagged table; a diverged run does not leave a ppc marked successful. Also: batch readers use the regular rating expressions; OutputWriter's positional fast path only under index equality. Round 4: batch power loading from the larger terminal power; integer profiles scaled.",
              "literal-table extraction + transitive read-set analysis over the call graph"),
     "C13": C("Controllers ordered ascending by (level, order), in-service only; every control step is followed by an "
              "evaluation of the net before the loop test; loop bound and not-converged raise are complementary; tap "
              "steps are guarded by the tap limits in the same mask, the continuous tap passes np.clip before the write; "
              "the convergence test of each tap controller accepts exactly the limit that blocks the needed step "
-             "(sibling agreement of control_step and is_converged). Also: initialize_control re-reads the tap limits; is_converged compares the magnitude of the deviation.",
+             "(sibling agreement of control_step and is_converged). Also: initialize_control re-reads the tap limits; is_converged compares the magnitude of the deviation. Round 4: only in-service ext_grids exempt a transformer from control.",
              "ordering / guard / sibling cross-check on ast"),
     "C14": C("in_service restored in finally for every N-1 case; N-0 evaluation after the N-1 loop; min/max masks "
              "exclude own outage and NaN; cause attribution is NaN-safe; the N-1 limit column is read from the table "
@@ -89,11 +89,11 @@ CLAIMS = {
              "sibling cross-check + effect analysis on ast"),
     "C16": C("Every declared OPF constraint column is read on the OPF conversion path into the matching ppc limit "
              "column with the load-like inversion pair; paired fancy-index masks agree (MASKPAIR); if/else limit "
-             "assignments cover both bounds; DC line limits are written on the side they constrain. Also: branch rating depends on df; controllable NaN filled before the bool cast; Q-limit loop restores PD and QD.",
+             "assignments cover both bounds; DC line limits are written on the side they constrain. Also: branch rating depends on df; controllable NaN filled before the bool cast; Q-limit loop restores PD and QD. Round 4: DC OPF nodal balance contains PD and GS.",
              "dependence analysis + contradiction lint"),
     "C17": C("Sign parity of cost coefficients: the element sign may multiply odd-degree coefficients only; "
              "res_cost flows from the objective of the same gencost; signs are aligned with the filtered cost rows; "
-             "polynomial coefficients are scaled per unit by degree. Also: dcline cost mapped to its own auxiliary generator (index expression evaluated); no stale per-row quantity in makeAy.",
+             "polynomial coefficients are scaled per unit by degree. Also: dcline cost mapped to its own auxiliary generator (index expression evaluated); no stale per-row quantity in makeAy. Round 4: polynomial gencost rows addressed through ipol; pwl break points per unit.",
              "monomial-shape (sign parity) analysis"),
     "C18": C("Unit, decimal scale and base-power degree 0 of every closed-form short-circuit result (ikss, skss, ip, "
              "rk/xk) and of the short-circuit admittances; literal factors (1/sqrt3, 1/2, sqrt3, sqrt2; 2ph = sqrt3/2 of "
@@ -114,7 +114,7 @@ CLAIMS = {
     "C22": C("Foreign keys declared in network_schema are covered by the toolbox tables; every type code of a "
              "referencing table is handled by reindex_elements; every row drop in the toolbox is preceded by group "
              "detach and followed by result/reference cascade; re-indexing covers result tables; element-type codes are "
-             "compared exactly and mapped to the table they name. Also: all reference rewrites select by old_indices; cost rows dropped for every dropped element. Also: drop_trafos gets the table its index came from.",
+             "compared exactly and mapped to the table they name. Also: all reference rewrites select by old_indices; cost rows dropped for every dropped element. Also: drop_trafos gets the table its index came from. Round 4: generic drop dispatches trafo3w through drop_trafos; fuse_buses keeps its target; result index rewritten whenever rows exist.",
              "schema-vs-toolbox table agreement + ordering on ast"),
     "C23": C("Only the replacement family is claimed: every parameter of an element created by a replace_* function of the "
              "toolbox (line<->impedance, ward/xward -> internal elements or ward, ext_grid<->gen, gen<->sgen, load/sgen/"
@@ -123,7 +123,7 @@ CLAIMS = {
              "dropping and fusing are not decided. Also: asymmetry test of impedance->line, f_hz handed to sub-networks, characteristic id offset when merging.",
              "monomial-shape abstract interpretation (rows of itertuples/iterrows as table rows, create_* inlined)"),
     "C24": C("Sibling agreement of single and batch creators: std-type keys consumed, columns written, existence and "
-             "index checks called, duplicate-cost predicate structure incl. the power_type filter. Also: index checks dominate the return, optional columns decided over all types, explicit arguments override the type. Also: index check and row write of every creator name the same table.",
+             "index checks called, duplicate-cost predicate structure incl. the power_type filter. Also: index checks dominate the return, optional columns decided over all types, explicit arguments override the type. Also: index check and row write of every creator name the same table. Round 4: default shunt voltage by label in the order given; defaults filled before the dtype cast.",
              "sibling cross-check of literal tables on ast"),
     "C25": C("Electrical keys of the built-in standard-type libraries are consumed by the creators; change_std_type "
              "iterates over the type's parameters and applies them unconditionally, replacing the std_type cell; list-valued "
@@ -132,7 +132,7 @@ CLAIMS = {
     "C26": C("Per edge-producing block of create_nxgraph: in_service dependence, switch mask dependence on closed/et, "
              "out-of-service bus removal, nogobuses/notravbuses handling; connected_components removes each "
              "component from the work set; multigraph distances take the minimum over parallel edges; each include_* "
-             "option gates the block of its own element type. Also: untouched buses added from the counted index; trafo3w open switches matched as (index, bus) pairs.",
+             "option gates the block of its own element type. Also: untouched buses added from the counted index; trafo3w open switches matched as (index, bus) pairs. Round 4: out-of-service buses removed by label; searches forward shared options to create_nxgraph.",
              "dependence analysis on ast"),
     "C27": C("Cascade clauses: detach-before-drop in every drop function; reindexing rewrites group element_index; "
              "group row removed exactly when member list becomes empty; group cells are not mutated through aliases shared "
@@ -153,7 +153,7 @@ CLAIMS = {
              "normally returning path; results are returned in fresh containers. Also: no mutable class attribute shared between Diagnostic instances, no memoised function in the package.",
              "shared-mutable escape analysis + CFG restore pairing"),
     "C31": C("A lookup built from a frame merged on (id, step) must be keyed on both keys; no in-place write through "
-             "a view of net.trafo; written values depend on tap_pos and id_characteristic_table of the same rows. Also: formula masks exclude table transformers, table angle signed by the tapped side, vk lookup mask independent of the tap position.",
+             "a view of net.trafo; written values depend on tap_pos and id_characteristic_table of the same rows. Also: formula masks exclude table transformers, table angle signed by the tapped side, vk lookup mask independent of the tap position. Round 4: table lookup independent of the tap changer type; star-point flip independent of the table flag.",
              "key-collapse dependence analysis + alias/view analysis"),
     "C32": C("Only argument order, transform pairing and serialisation bookkeeping of the characteristic classes are claimed: "
              "abscissae before ordinates from the object's own support points in np.interp / interp1d / PchipInterpolator, "
